@@ -70,3 +70,12 @@ func init() {
 		Assume: schedAssume,
 	}
 }
+
+func init() {
+	cfgs["C09"] = checkCfg{
+		Variant: "sched", Validate: false,
+		Budget: dur(170, 1700),
+		Rule:   "programs P(d,e,v,shape): recursion depth d in {0..12}, right-nested expression depth e in {1..70}, v locals per frame in {0..8}, 5 loop shapes (plain, call in try, early return, break, caught throw per iteration), run with 1/3/40 (thorough: 600) loop iterations under EVERY limit triple of a lattice (each limit swept with the other two generous, plus the full cube of small values) on the VM, and under call limits 0..100 on the interpreter; differential oracle: never a host panic, completion with the reference output or the fatal interrupt corresponding to the small limit, monotone in every limit, independence of the iteration count, programs needing clearly more than a limit are stopped, zero residue; states = (program, limits, iterations) runs",
+		Assume: schedAssume,
+	}
+}
